@@ -111,3 +111,9 @@ func VerifC09_TrafficRoutingContextNoPanic() {
 	_ = metav1.Now
 	verifrt.Cover("done")
 }
+
+// The special cases of a rollout in progress — rollback (directly or in batches), supersession, plan change — are
+// reached from every accepted canary and blue-green rollout; none of them may panic (a blue-green rollout has no
+// canaryStatus, a canary rollout no blueGreenStatus).  Same relation as VerifC10_Dispatch; here the obligation is
+// the absence of a runtime panic.
+func VerifC09_ProgressingSpecialCasesNoPanic() { VerifC10_Dispatch() }
